@@ -27,7 +27,6 @@ import (
 	"github.com/golang/protobuf/proto"
 
 	"verifharness/internal/h"
-	"verifharness/props/c17/fakepeer"
 )
 
 func execHs(idHex, kind string) (res h.Result) {
@@ -49,7 +48,7 @@ func execHs(idHex, kind string) (res h.Result) {
 	accepted, delivered, sender := false, 0, "-"
 	switch kind {
 	case "k":
-		s, err := fakepeer.Handshake(c, id)
+		s, err := boundedHandshake(c, id)
 		if err == nil {
 			s.Send(&p2p.Ping{Count: 5}, 1, false, 0)
 			deadline := time.Now().Add(4 * time.Second)
@@ -139,11 +138,11 @@ func execHsMitm(n int) (res h.Result) {
 		}
 		defer b.Close()
 		// towards A the proxy is "B", towards B it is "A" — each time with a key pair of its own
-		sA, err := fakepeer.Handshake(a, []byte("B"))
+		sA, err := boundedHandshake(a, []byte("B"))
 		if err != nil {
 			return
 		}
-		sB, err := fakepeer.Handshake(b, []byte("A"))
+		sB, err := boundedHandshake(b, []byte("A"))
 		if err != nil {
 			return
 		}
